@@ -19,6 +19,7 @@ import os
 import re
 
 from ..session import MOD_HOME, Sim, fingerprint
+from ..sut import HarnessError
 
 ID = "C09"
 TIERS = {
@@ -71,7 +72,8 @@ REQUIRED_PROBES = {
               "crawl_functions_invoked", "interleaved_nonsecure_effects",
               "secure_allowed_module_read", "flag_probe_read",
               "nonsecure_created_first", "env_shared_with_nonsecure",
-              "detached_scope_calls", "secure_interpreter_created_late"],
+              "detached_scope_calls", "secure_interpreter_created_late",
+              "precreated_child_scope", "repl_hosted_secure_session"],
 }
 REQUIRED_PROBES["thorough"] = REQUIRED_PROBES["quick"]
 
@@ -387,6 +389,8 @@ def build_sweep(spec):
                             "env": ename})
                 for o in os_native_ops(("", "fe_"))[:40]:
                     ops.append(dict(o, env=ename))
+                for o in os_native_ops(("", "fe_"))[:24]:
+                    ops.append(dict(o, env=ename + "/child"))
                 ops.append({"inst": "S", "src": "require OS; require IO; "
                             "OS->file_exists(" + P1 + ")", "tag": "req",
                             "env": ename})
@@ -430,6 +434,10 @@ def gen_session(rng, tier):
            "n_legacy": rng.random() < 0.7,
            "n_first": rng.random() < 0.5,
            "share_env": rng.random() < 0.5}
+    if rng.random() < 0.2:
+        # the secure instance is an interactive `repl -s` session
+        cfg["host"] = "repl"
+        cfg["share_env"] = False
     files = base_files(12)
     files[f"{MOD_HOME}/umod.ckl"] = {"text": (
         "bind_native('file_delete');\nbind_native('execute');\n"
@@ -529,7 +537,9 @@ def gen_session(rng, tier):
             new += rng.sample(os_native_ops(("", "fe_")), 4)
             if rng.random() < 0.35:
                 en = "FE" + str(rng.randrange(4))
-                new = [dict(o, env=en) for o in new]
+                new = [dict(new[0], env=en)] + [
+                    dict(o, env=en + rng.choice(["", "/child"]))
+                    for o in new[1:]]
             new += flag_probe_ops(nprobe % 12)
             nprobe += 1
         elif r < 0.80:
@@ -567,6 +577,8 @@ def gen_session(rng, tier):
             new = [{"inst": "S", "src": rng.choice([
                 "1 / 0", "error 'x'", "undefined_zz", "def x = ;",
                 "do bind_native('file_delete'); error 'after'; end",
+                "def rec_(n) rec_(n + 1); rec_(0)",
+                "def rec_(n) rec_(n + 1); rec_(0)",
                 "do file_delete(" + P1 + "); catch all 1; end"]),
                 "tag": "failing"}]
             if tier == "thorough" and rng.random() < 0.5:
@@ -618,6 +630,8 @@ def gen_session(rng, tier):
 
 def allowed_for_secure(ev, moddirs):
     """is this world event a permitted effect of a secure instance?"""
+    from ..world import SUT_SRC
+    moddirs = list(moddirs) + [SUT_SRC + "/ckl/modules"]
     kind = ev[2]
     if kind in ("out", "in", "console", "clock", "outcome", "fault",
                 "outclose", "inclose"):
@@ -682,7 +696,24 @@ def run_case(case, root):
             # before the secure interpreter is created
             N = sim.new_interpreter("N", False, cfg.get("n_legacy", True))
             probes["nonsecure_created_first"] = 1
-        S = sim.new_interpreter("S", True, cfg["legacy"])
+        host = None
+        stuck = []
+        if cfg.get("host") == "repl":
+            from ..replhost import ReplHost
+            host = ReplHost(sim, "S", True, cfg["legacy"], None)
+            w.actor = "S"
+            w.sut_running = True
+            try:
+                started = host.start()
+            finally:
+                w.sut_running = False
+                w.actor = "-"
+            if not started:
+                raise HarnessError(f"REPL did not start: {host.exc!r}")
+            S = sim.inst["S"]
+            probes["repl_hosted_secure_session"] = 1
+        else:
+            S = sim.new_interpreter("S", True, cfg["legacy"])
         if cfg.get("nonsecure") and N is None:
             N = sim.new_interpreter("N", False, cfg.get("n_legacy", True))
         moddirs = [MOD_HOME]
@@ -715,16 +746,55 @@ def run_case(case, root):
                 src = op["src"]
                 env = None
                 if op.get("env"):
-                    if op["env"] not in envs:
+                    ename = op["env"]
+                    rootname = ename.split("/")[0]
+                    if rootname not in envs:
                         from ckl.functions import Environment
-                        envs[op["env"]] = Environment()
-                    env = envs[op["env"]]
-                    used_by.setdefault(op["env"], set()).add(inst)
-                    if len(used_by[op["env"]]) > 1:
+                        envs[rootname] = Environment()
+                        # a child scope that exists before the root is
+                        # ever handed to an interpreter
+                        envs[rootname + "/child"] = envs[rootname].newEnv()
+                    env = envs[ename]
+                    used_by.setdefault(rootname, set()).add(inst)
+                    if ename.endswith("/child"):
+                        probes["precreated_child_scope"] = 1
+                    if len(used_by[rootname]) > 1:
                         probes["env_shared_with_nonsecure"] = 1
-                out = sim.run(idx, inst, op.get("faults", []),
-                              lambda: it.interpret(src, "c", env),
-                              fault_steps=tuple(op.get("steps", ())))
+                if host is not None and inst == "S":
+                    if not host.alive or stuck:
+                        continue      # the session has ended: nothing runs
+                    if "\n" in src or op.get("env"):
+                        continue
+
+                    def via_repl():
+                        from ckl.errors import CklSyntaxError
+                        calls, printed = host.send(src)
+                        tries = 0
+                        while host.alive and host.prompts and \
+                                host.prompts[-1].startswith("+"):
+                            tries += 1
+                            if tries > 2:
+                                # this REPL keeps asking for continuation
+                                # lines (a parser exception it cannot get
+                                # past): the session is over for us
+                                stuck.append(True)
+                                break
+                            c2, p2 = host.send(")")
+                            calls = calls + c2
+                        if not calls:
+                            raise CklSyntaxError("rejected by the REPL")
+                        if calls[-1][0] == "exc":
+                            raise calls[-1][1]
+                        return calls[-1][1]
+                    out = sim.run(idx, inst, op.get("faults", []), via_repl,
+                                  fault_steps=tuple(op.get("steps", ())))
+                    # the REPL may have replaced its interpreter
+                    it = sim.inst["S"]
+                    S = it
+                else:
+                    out = sim.run(idx, inst, op.get("faults", []),
+                                  lambda: it.interpret(src, "c", env),
+                                  fault_steps=tuple(op.get("steps", ())))
             evs = w.trace[n_ev:]
             if inst == "N":
                 if any(e[2] in ("open", "os", "proc") for e in evs):
@@ -791,6 +861,8 @@ def run_case(case, root):
                                  "val": out.get("val", "")[:60]})
                 if len(observed) > 10:
                     observed.pop(0)
+        if host is not None:
+            S = sim.inst["S"]
         # `run` must not exist in a secure interpreter
         if not viol:
             out = sim.run(len(case["ops"]), "S", [], lambda: S.interpret(
@@ -828,7 +900,11 @@ def run_case(case, root):
         res["steps"] = sim.clock.total
         res["faulty"] = bool(sim.w.fired)
         res["observed"] = observed
-        sim.close()
+        try:
+            if locals().get("host") is not None:
+                host.stop()
+        finally:
+            sim.close()
     return res
 
 
